@@ -177,7 +177,11 @@ func runSweep(c *Ctx, mode string) {
 	for i := range sweepPool {
 		pool[i], _ = env.Get(object.GetSymHash(fmt.Sprintf("p%d", i)))
 	}
-	trace, _ := os.Create(fmt.Sprintf("/tmp/verif-sweep-%s-%d.last", mode, c.Shard))
+	tracePath := os.Getenv("VERIF_TRACE")
+	if tracePath == "" {
+		tracePath = fmt.Sprintf("/tmp/verif-sweep-%s-%d.last", mode, c.Shard)
+	}
+	trace, _ := os.Create(tracePath)
 	defer func() {
 		if trace != nil {
 			trace.Close()
